@@ -24,9 +24,11 @@ import struct
 from harness import c04
 
 STREAMS = ['recv-exhaustive', 'recv-random', 'recv-handshake', 'recv-malformed', 'sender-layout',
-           'sender-callremote']
+           'sender-callremote', 'end-to-end-constructed', 'info-of-parse']
 THEOREMS = ['sender_layout', 'attribution', 'attribution_after_handshake', 'attribution_callRemote',
-            'sender_calls_consistent', 'model_rules_match_source']
+            'sender_calls_consistent', 'model_rules_match_source',
+            'info_of_constructed', 'descriptors_end_to_end', 'descriptors_end_to_end_sender',
+            'descriptors_end_to_end_after_handshake', 'sender_sends_constructed', 'senderEvs_consistent']
 TRUSTED_BASE = [
     'the message parser is an abstract parameter of the receiver model (raw message -> declared unix_fds, '
     'indices of its h arguments); the harness tabulates it by parsing each raw message with a probe list',
@@ -302,6 +304,32 @@ def walk(v, out):
             walk(x, out)
 
 
+def unfd(v):
+    """A parsed body with the descriptor stand-ins as the plain ints they stand for."""
+    if isinstance(v, FD):
+        return int(v)
+    if isinstance(v, dict):
+        return dict((unfd(k), unfd(x)) for k, x in v.items())
+    if isinstance(v, list):
+        return [unfd(x) for x in v]
+    if isinstance(v, tuple):
+        return tuple(unfd(x) for x in v)
+    return v
+
+
+def body_line(m):
+    """The parsed body in the value syntax of harness/valcodec.py (`N`: no body; `!`: no message / not encodable)."""
+    from harness import valcodec
+    if m is None:
+        return '!'
+    if not m.signature:
+        return 'N' if m.body is None else '!'
+    try:
+        return valcodec.to_line(unfd(m.body))
+    except ValueError:
+        return '!'
+
+
 def info_of(raw):
     """The abstract parser of the model, tabulated with the real parser: (declared or None, indices)."""
     marshal, message, _ = _mods()
@@ -333,8 +361,11 @@ def recv_classes(ctx):
                 if m is not None and m.signature:
                     walk(m.body, args)
                 args = [None if a is None else int(a) for a in args]
-                self.log.append({'raw': bytes(raw).hex(), 'args': args, 'qb': [int(x) for x in qb],
-                                 'qa': [int(x) for x in self._receivedFDs]})
+                entry = {'raw': bytes(raw).hex(), 'args': args, 'qb': [int(x) for x in qb],
+                         'qa': [int(x) for x in self._receivedFDs]}
+                if getattr(self, 'want_body', False):
+                    entry['body'] = body_line(m)
+                self.log.append(entry)
 
             def methodCallReceived(self, m):
                 self._last = m
@@ -356,7 +387,7 @@ def recv_classes(ctx):
     return _CLS[ctx.repo]
 
 
-def observe(ctx, events, mode='binary', script='', linux=False):
+def observe(ctx, events, mode='binary', script='', linux=False, want_body=False):
     from twisted.internet.testing import StringTransport
     from txdbus import protocol
     P, PServer = recv_classes(ctx)
@@ -369,6 +400,7 @@ def observe(ctx, events, mode='binary', script='', linux=False):
         if mode == 'binary':
             p = P()
             p.log = []
+            p.want_body = want_body
             p.transport = tr
             p._receivedFDs = []
             p._authenticated = True
@@ -935,6 +967,246 @@ def stream_sender(ctx):
                       inp={'calls': [['h', [11]], ['h', [12]]]}, observed=tr.calls, expected=['f11', 'W', 'f12', 'W'])
 
 
+
+# --------------------------------------------------------------------------------------- end to end, constructed messages
+# C20 composed with C03 / C04 / C01 (extension 2026-09-30): real constructors, real sendMessage on a recording UNIX
+# transport, the recorded stream replayed into a real receiver under a random interleaving the environment model
+# allows; the composed Lean model (driver command X: C03's constructor model + oobAfter / sendConstructed, then
+# recvRun with infoOfParse and parsedDelivery) gets the constructor ARGUMENTS and the events.
+PLAIN_ARGS = [
+    ('s', 'x\r\ny', 'p'), ('s', '', 'p'), ('i', 2573, 'p'), ('u', 7, 'p'), ('b', True, 'p'),
+    ('as', ['a', 'b'], ['p', 'p']), ('ai', [], []), ('(is)', [1, 'z'], ['p', 'p']),
+    ('a{su}', {'k': 1, 'l': 2}, [['p', 'p'], ['p', 'p']]), ('v', 'text', ['p']), ('o', '/x/y', 'p'),
+    ('g', 'a{sv}', 'p'), ('d', 1.5, 'p'), ('x', -2 ** 40, 'p'), ('ay', [1, 2, 3], ['p', 'p', 'p']),
+]
+
+
+def gen_plain(rng):
+    """A descriptor-free body.  -> (sig or None, body or None, trees)"""
+    parts = [rng.choice(PLAIN_ARGS) for _ in range(rng.choice([0, 1, 1, 2, 3]))]
+    if not parts:
+        return rng.choice([None, None, '']), None, []
+    return ''.join(p[0] for p in parts), [p[1] for p in parts], [p[2] for p in parts]
+
+
+def _opt_s(x):
+    from harness import valcodec
+    return 'N' if x is None else 's' + valcodec.str_hex(x)
+
+
+def _tf(b):
+    return 'T' if b else 'F'
+
+
+def e2e_message(rng, i):
+    """Message number i of a sequence, built by a REAL constructor.
+    -> dict(msg, call (tokens of the driver's <call>), fds (descriptor arguments in argument order), trees, kind)"""
+    from harness import valcodec
+    marshal, message, _ = _mods()
+    base = 1000 * (i + 1) if rng.random() < 0.8 else 7
+    r = rng.random()
+    dest = rng.choice([None, None, ':1.7', 'a.b'])
+    oob, fds = None, []
+    if r < 0.45:
+        kind = 'call-oob'
+        sig, body, trees, fds = gen_body(rng, base)
+        oob = []
+    elif r < 0.60:
+        # several `h`, the same descriptor number more than once
+        kind = 'call-oob-repeat'
+        k = rng.choice([2, 3, 4])
+        d0 = base + rng.randrange(50)
+        fds = [d0 if rng.random() < 0.6 else base + rng.randrange(50) for _ in range(k)]
+        sig, body, trees = 'h' * k, list(fds), [('h', x) for x in fds]
+        oob = []
+    elif r < 0.70:
+        kind = 'call-oob-plain'
+        sig, body, trees = gen_plain(rng)
+        oob = []
+    elif r < 0.80:
+        kind = 'call-none'
+        sig, body, trees = gen_plain(rng)
+    else:
+        kind = rng.choice(['ret', 'err', 'sig'])
+        sig, body, trees = gen_plain(rng)
+    body_toks = ['N'] if body is None else valcodec.to_line(body).split()
+    if kind.startswith('call'):
+        iface = rng.choice([None, 'a.b'])
+        er, as_ = rng.random() < 0.7, rng.random() < 0.7
+        m = message.MethodCallMessage('/a', 'M', interface=iface, destination=dest, signature=sig, body=body,
+                                      expectReply=er, autoStart=as_, oobFDs=oob)
+        head = ['call', None, None, _tf(er), _tf(as_), _opt_s('/a'), _opt_s('M'), _opt_s(iface), 'N', 'N',
+                _opt_s(dest), 'N']
+    elif kind == 'ret':
+        rs = rng.choice([1, 2573, 2 ** 32 - 1])
+        m = message.MethodReturnMessage(rs, body=body, destination=dest, signature=sig)
+        head = ['ret', None, None, 'T', 'T', 'N', 'N', 'N', 'N', str(rs), _opt_s(dest), 'N']
+    elif kind == 'err':
+        rs = rng.choice([1, 2573])
+        snd = rng.choice([None, ':1.9'])
+        m = message.ErrorMessage('a.Err', rs, destination=dest, signature=sig, body=body, sender=snd)
+        head = ['err', None, None, 'T', 'T', 'N', 'N', 'N', _opt_s('a.Err'), str(rs), _opt_s(dest), _opt_s(snd)]
+    else:
+        m = message.SignalMessage('/a', 'M', 'a.b', destination=dest, signature=sig, body=body)
+        head = ['sig', None, None, 'T', 'T', _opt_s('/a'), _opt_s('M'), _opt_s('a.b'), 'N', 'N', _opt_s(dest), 'N']
+    head[1] = str(m.serial)                 # the counter stood at the serial this message got
+    head[2] = str(type(m)._maxMsgLen)
+    call = head + [_opt_s(sig), 'N' if oob is None else '-', str(len(body_toks))] + body_toks
+    toks = []
+    for t in trees:
+        toks += tree_tokens(t)
+    return {'msg': m, 'call': call, 'fds': list(fds), 'tree': ' '.join(toks) or '-', 'kind': kind, 'sig': sig or ''}
+
+
+def e2e_impl_line(sent, o):
+    ms = ['M raw=%s send=%s tree=%s' % (x['raw'].hex(), ' '.join(x['calls']), x['tree']) for x in sent]
+    ds = ['D %s a=%s b=%s q=%s p=%s' % (d['raw'] or '-', nl(d['args']), nl(d['qb']), nl(d['qa']), d.get('body', '!'))
+          for d in o['log']]
+    return ' ; '.join(ms) + ' || ' + ' ; '.join(ds) + ' | ' + (o['buffer'] or '-') + ' ' + nl(o['queue'])
+
+
+def stream_end_to_end(ctx):
+    rng = ctx.rng
+    marshal, message, protocol = _mods()
+    n = ctx.scale(quick=350, thorough=9000)
+    cases = []
+    for _ in range(n):
+        k = rng.choice([1, 2, 3, 3, 4, 6, 9])
+        built = [e2e_message(rng, i) for i in range(k)]
+        # the real sender: BasicDBusProtocol.sendMessage on a transport that records the calls in order
+        tr = RecTransport()
+        p = protocol.BasicDBusProtocol()
+        p.transport = tr
+        sent, sender_fault = [], None
+        for x in built:
+            before, nwrites = len(tr.calls), len(getattr(tr, 'writes', []))
+            try:
+                p.sendMessage(x['msg'])
+            except Exception as e:
+                sender_fault = '%s: %s' % (type(e).__name__, e)
+                break
+            calls = tr.calls[before:]
+            writes = getattr(tr, 'writes', [])[nwrites:]
+            sent.append({'raw': b''.join(writes), 'calls': calls, 'tree': x['tree'], 'nwrites': len(writes),
+                         'sent_fds': [int(c[1:]) for c in calls if c != 'W']})
+        ctx.impl_trace()
+        if sender_fault is not None:
+            cases.append((built, sent, None, None, sender_fault))
+            continue
+        # what the wire carries: per message the descriptors handed to the transport and the bytes written
+        wire = [{'raw': x['raw'], 'fds': x['sent_fds']} for x in sent]
+        stream = b''.join(w['raw'] for w in wire)
+        if rng.random() < 0.12 and len(wire[-1]['raw']) > 1:
+            stream = stream[:len(stream) - rng.randrange(1, len(wire[-1]['raw']))]
+        reads = c04.random_partition(rng, stream)
+        allfds = [d for w in wire for d in w['fds']]
+        events = interleave(reads, allfds, random_slots(rng, deadlines(wire, reads), len(reads)))
+        cases.append((built, sent, events, len(stream) == sum(len(w['raw']) for w in wire), None))
+    lines = []
+    for built, sent, events, complete, fault in cases:
+        if fault is not None:
+            lines.append('X 0 E')
+            continue
+        toks = ['X', str(len(built))]
+        for x in built:
+            toks += x['call']
+        toks.append('E')
+        toks += [e if len(e) > 1 else 'r-' for e in events]
+        lines.append(' '.join(toks))
+    out = ctx.model(lines)
+    for k, (built, sent, events, complete, fault) in enumerate(cases):
+        inp = {'calls': [' '.join(x['call']) for x in built], 'fds': [x['fds'] for x in built],
+               'sigs': [x['sig'] for x in built], 'events': events}
+        nfds = sum(len(x['fds']) for x in built)
+        ctx.case('end-to-end-constructed', sample=inp, nontrivial=nfds > 0)
+        ctx.stat('end-to-end-constructed:msgs=%d' % len(built))
+        ctx.stat('end-to-end-constructed:fds-total=%s' % c04.bucket(nfds))
+        for x in built:
+            ctx.stat('end-to-end-constructed:kind=%s' % x['kind'])
+            if len(set(x['fds'])) < len(x['fds']):
+                ctx.stat('end-to-end-constructed:same-descriptor-twice-in-a-message')
+        if fault is not None:
+            ctx.violation('sender-exception', 'sendMessage raised %s for a constructed message' % fault, inp=inp,
+                          observed=fault, expected='f.. W per message')
+            continue
+        # ---- S4, sender (implementation only): descriptors of every message, in argument order, then its bytes
+        sender_ok = True
+        for x, y in zip(built, sent):
+            if y['nwrites'] != 1 or y['raw'] != x['msg'].rawMessage:
+                key, what = 'sender-nothing-sent', 'sendMessage wrote %d times for one message' % y['nwrites']
+            else:
+                decl, idx = info_of(y['raw'])
+                key, what = judge_sender(x['fds'], None, decl, idx, list(getattr(x['msg'], 'oobFDs', None) or []),
+                                         y['calls'])
+            if key:
+                sender_ok = False
+                ctx.violation(key, what, inp=inp, observed=y['calls'], expected='hdr=k idx=0..k-1 oob=fds send=f.. W')
+                break
+        # ---- the real receiver on the recorded stream
+        try:
+            o = observe(ctx, events, 'binary', want_body=True)
+        except c04.HarnessFault as e:
+            SKIPPED['end-to-end-constructed'] = SKIPPED.get('end-to-end-constructed', 0) + 1
+            if SKIPPED['end-to-end-constructed'] == 1:
+                ctx.note('stream end-to-end-constructed: scenario skipped, the harness could not run it (%s)' % e)
+            continue
+        ctx.stat('end-to-end-constructed:max-early-queue=%s' % c04.bucket(max([len(d['qa']) for d in o['log']] or [0])))
+        if out is not None and not o['crashed']:
+            il = e2e_impl_line(sent, o)
+            if out[k] != il:
+                ctx.disagree('end-to-end-constructed', inp, c04.clip(out[k]), c04.clip(il))
+        if not sender_ok:
+            continue
+        # ---- S4, receiver (implementation only): every message gets exactly the descriptors its sender attached
+        sc = {'msgs': [{'raw': x['msg'].rawMessage.hex(), 'fds': x['fds']} for x in built], 'events': events}
+        key, what = judge(sc, o)
+        if not key and complete and o['queue']:
+            key, what = ('descriptor-left-queued', 'all bytes of all messages were read, %r is still queued' % (o['queue'],))
+        if key:
+            ctx.violation(key, what, inp=inp, observed={'log': [dict(d, body=None) for d in o['log']], 'queue': o['queue']},
+                          expected='every message delivered with exactly the descriptors attached to it, in order, '
+                                   'none left queued')
+
+
+def stream_info_of_parse(ctx):
+    """`infoOfParse` (the model's parser: C03's parseMessage model + the specification decoder on the body) against
+    the table the real parseMessage gives with a probe list, on every kind of message the receiver streams use:
+    either byte order, every message type, descriptors inside variants, indices out of range, header absent / 0 /
+    too large."""
+    rng = ctx.rng
+    marshal, message, _ = _mods()
+    raws = []
+    n = ctx.scale(quick=500, thorough=8000)
+    for i in range(n):
+        if rng.random() < 0.75:
+            raws.append(gen_msg(rng, i % 12)['raw'])
+        else:
+            nf = rng.choice([1, 2, 3])
+            idx = [rng.choice([0, 1, 2, 5, 2 ** 32 - 1]) for _ in range(nf)]
+            big = rng.random() < 0.3
+            bodyb = b''.join(struct.pack('>I' if big else '<I', j) for j in idx)
+            headers = [[5, marshal.UInt32(1)], [8, marshal.Signature('h' * nf)]]
+            decl = rng.choice([None, 0, 1, nf, nf + 2, 2 ** 32 - 1])
+            if decl is not None:
+                headers.append([9, marshal.UInt32(decl)])
+            hdr = b''.join(marshal.marshal(c04.header_signature(),
+                                           [ord('B') if big else ord('l'), 2, 0, 1, len(bodyb), i + 1, headers],
+                                           lendian=not big)[1])
+            raws.append(hdr + b'\0' * (-len(hdr) % 8) + bodyb)
+    out = ctx.model(['I ' + r.hex() for r in raws])
+    for k, raw in enumerate(raws):
+        try:
+            decl, idx = info_of(raw)
+        except Exception as e:
+            ctx.note('info-of-parse: the real parser raised %s on a generated message' % type(e).__name__)
+            continue
+        ctx.case('info-of-parse', sample=raw.hex(), nontrivial=bool(idx))
+        ctx.stat('info-of-parse:%s,indices=%d' % ('big' if raw[:1] == b'B' else 'little', len(idx)))
+        il = '%s %s' % ('-' if decl is None else decl, nl(idx))
+        if out is not None and out[k] != il:
+            ctx.disagree('info-of-parse', raw.hex(), out[k], il)
+
+
 # --------------------------------------------------------------------------------------- entry points
 def run_corpus_entry(ctx, B, data):
     sc = data.get('input', data)
@@ -967,6 +1239,8 @@ def run(ctx):
     guarded(stream_recv_deep_queue, ctx, B)
     guarded(stream_recv_handshake, ctx, B)
     guarded(stream_recv_malformed, ctx, B)
+    guarded(stream_end_to_end, ctx)
+    guarded(stream_info_of_parse, ctx)
     for st, k in sorted(SKIPPED.items()):
         ctx.note('stream %s: %d scenarios skipped by the harness (an internal it reaches for has moved)' % (st, k))
     if SKIPPED and ctx.cases == 0:
